@@ -216,6 +216,7 @@ func expand(ex *Executor, p *plan.Plan, res *Result, agg *Agg) []*plan.Plan {
 			if cr.Chance(1, 8) {
 				rs.Srcs[0].Bufio = cr.PickInt(16, 64, 4096)
 			}
+			rs.Srcs[0].Seeker = cr.Chance(1, 4)
 			if cr.Chance(1, 3) {
 				rs.Ops = []plan.ROp{{Op: "writeto"}}
 			} else {
